@@ -13,6 +13,10 @@ EXTENSIONS = [
          text="X03: Analysis.get_call_graph as a function of the call relation, the methods the filters select and no_isolated (sources, nodes, edges; TLC: EdgesAreCalls, EndpointsAreNodes, NodesJustified, "
               "NoIsolated, AllSelected, Whole, and the action property Monotone over every call relation of 3 methods with code + 1 external method); every enumerated query replayed on a generated program "
               "(vf/props/x03.py), class-filter and whole-program queries on the shipped DEX files, validated by CallGraph_Trace (nodes, edges, each once, external attribute); no finding"),
+    dict(name="tlc+ImpliedPerms", path="/verif/spec/ImpliedPerms.tla",
+         text="X04: APK.get_uses_implied_permission_list as the platform's package-parser procedure (new permissions below API 4, then the split rules one at a time in any order) over every subset of the "
+              "seven permissions x target / min level; TLC: ClosedForm (every order ends in the closed form), NeverAsked, Closed, Justified, Grows, Terminates; every enumerated manifest is written by the "
+              "independent AXML writer, parsed by APK and validated by ImpliedPerms_Trace (vf/props/x04.py); no finding"),
 ]
 
 
